@@ -25,3 +25,4 @@ def rules(ctx):
     S.survey_residue_rules(ctx)
     S.relocation_content_rules(ctx)
     S.survey2_rules(ctx)
+    S.round4_residue_rules(ctx)
